@@ -390,12 +390,30 @@ Record ostate := mkO {
 
 Definition o_init : ostate := mkO [] [] [] [].
 
-Fixpoint take_owed (sub : str) (e : event) (l : list owed) : option (list owed) :=
+Fixpoint take_where (p : owed -> bool) (l : list owed) : option (list owed) :=
   match l with
   | [] => None
   | x :: r =>
-      if str_eqb (o_sub x) sub && event_eqb (o_ev x) e then Some r
-      else match take_owed sub e r with Some r' => Some (x :: r') | None => None end
+      if p x then Some r
+      else match take_where p r with Some r' => Some (x :: r') | None => None end
+  end.
+
+(** an arrival [EVENT sub e] settles one owed copy of [e] for [sub].  Several
+    may be owed that differ only in [o_must]: copies queued for an earlier
+    subscription with this id (no longer required: the merge session may have
+    swallowed them as duplicates while it answered the REQ that re-used the id,
+    or they are still to come) and the copy for the present subscription.
+    Which of them arrived cannot be seen.  A copy that MUST come is settled
+    first: what is left then is never harder to satisfy than under the other
+    choice (the entries are interchangeable for every later arrival, and a
+    later REQ/CLOSE voids them alike), so this choice accepts exactly when
+    some attribution does.  (An earlier version settled the oldest entry first
+    and then missed the required copy.) *)
+Definition take_owed (sub : str) (e : event) (l : list owed) : option (list owed) :=
+  let same x := str_eqb (o_sub x) sub && event_eqb (o_ev x) e in
+  match take_where (fun x => same x && o_must x) l with
+  | Some r => Some r
+  | None => take_where same l
   end.
 
 Definition void_sub (sub : str) (l : list owed) : list owed :=
